@@ -9,6 +9,10 @@
 #[cfg(not(kani))]
 use std::panic;
 
+#[cfg(not(kani))]
+#[global_allocator]
+static TRACKER: mb2_harness::nd::alloc_track::Tracker = mb2_harness::nd::alloc_track::Tracker;
+
 #[cfg(kani)]
 fn main() {}
 
@@ -57,7 +61,10 @@ fn main() {
     } else {
         a[2].clone()
     };
-    let vals: Vec<Vec<u8>> = if spec == "-" || spec.is_empty() {
+    if let Some(b) = spec.strip_prefix("fill:") {
+        mb2_harness::nd::set_fill(b.parse().unwrap());
+    }
+    let vals: Vec<Vec<u8>> = if spec == "-" || spec.is_empty() || spec.starts_with("fill:") {
         vec![]
     } else {
         spec.split(',').map(unhex).collect()
